@@ -27,7 +27,10 @@ def run(ctx):
         "fragment the serializer writes is tokenised, by the automata of the CURRENT lexer rules, into exactly the "
         "punctuation its branch stands for; (S4) a text: block is followed by a newline before anything else is "
         "written; (S5) the serializer walks the same args_definition the recorder used, emits every slot present, "
-        "every child of a control, and separators only between consecutive tests.")
+        "every child of a control, and separators only between consecutive tests; (S6) interpreting tosieve's statements "
+        "over constants (finite-domain, no execution) for every declared type spelling of the command table x every stored "
+        "value shape, the value is written once, unchanged, after its tag, and a text: block is followed by a newline; (H1) no code modifies the definition "
+        "tables (args_definition, must_follow, lrules) that printer and recorder share.")
     ctx.not_decided = "tree equality after re-parsing and idempotence of the output for all values (behavioural)."
     serializer_rules(ctx, R)
     # recorder side of S1: what can end up in a string list / argument slot (shared with C01/C03)
@@ -35,6 +38,9 @@ def run(ctx):
     c01.p14(ctx, R)
     c01.p15(ctx, R)
     c01.g4(ctx, R)
+    # printing must not change what the next parse sees: the definition tables are shared by printer and recorder (H1, shared with C13)
+    from .c13 import h1
+    h1(ctx, R, only={"args_definition", "must_follow", "lrules"})
 
 
 def serializer_rules(ctx, R):
@@ -243,6 +249,8 @@ def serializer_rules(ctx, R):
         ctx.violation("S4", f, "no-newline-after-multiline", "a text: block is not followed by a newline: the terminating `.` is not at the end "
                       "of a line in the output", node=f.node, witness="`vacation text:\\nhi\\n.\\n;` serialises to `...\\n.;` which does not lex")
 
+    s6(ctx, R)
+
     # ---- S5 ------------------------------------------------------------------------
     ctx.rule("S5", "coverage: same args_definition, every present slot, every child, separators between consecutive tests only")
     fors = [x for x in walk_no_nested(f.node) if isinstance(x, ast.For)]
@@ -315,6 +323,133 @@ def serializer_rules(ctx, R):
             ctx.holds("S5", "test separator only between consecutive elements")
         else:
             ctx.violation("S5", f, "separator", "the `, ` separator of a test list is not restricted to non-last elements", node=w)
+
+
+def s6(ctx, R):
+    """Finite-domain evaluation of tosieve's per-slot code: one abstract run per (declared type spelling, stored value shape).
+
+    The declared types are the spellings found in the command table plus the documented single-name form; the value shapes are the ones the
+    recorder stores (tag text, quoted string, text: block, number text, list of quoted strings).  No repository code is executed: the
+    statements of tosieve are interpreted over constants by sa/fd.py and the sequence of target.write arguments is inspected."""
+    from sa import fd
+    ctx.rule("S6", "per declared type spelling and value shape: the value is written once, unchanged, and a text: block is followed by a newline")
+    f = R.tosieve
+    table = R.table()
+    slot_types, extra_types = [], []
+    for e in table.values():
+        for a in e["args_definition"] or []:
+            if a["type"] not in slot_types:
+                slot_types.append(a["type"])
+            if "extra_arg" in a and a["extra_arg"].get("type") not in extra_types:
+                extra_types.append(a["extra_arg"].get("type"))
+    for base in ("string", "number", "stringlist"):  # README: "extra_arg": {"type": "number"}
+        if base not in extra_types:
+            extra_types.append(base)
+    QUOTED, BLOCK, NUMBER, LIST = '"v"', "text:\nline\n.", "10", ['"a"', '"b"']
+
+    def names(t):
+        return [t] if isinstance(t, str) else list(t)
+
+    def shapes(t):
+        ns = names(t)
+        out = []
+        if "string" in ns or "stringlist" in ns:
+            out += [("quoted string", QUOTED), ("text: block", BLOCK)]
+        if "stringlist" in ns:
+            out.append(("string list", LIST))
+        if "number" in ns:
+            out.append(("number", NUMBER))
+        return out
+    scenarios = []
+    for t in slot_types:
+        if "tag" in names(t):
+            scenarios.append(("tag slot", {"name": "slot", "type": t, "required": False}, ":tag", None, ("tag", ":tag")))
+            for x in extra_types:
+                for label, v in shapes(x):
+                    scenarios.append(("tag slot with parameter type %r" % (x,), {"name": "slot", "type": t, "required": False, "extra_arg": {"type": x}},
+                                      ":tag", v, (label, v)))
+        else:
+            for label, v in shapes(t):
+                scenarios.append(("positional slot type %r" % (t,), {"name": "slot", "type": t, "required": True}, v, None, (label, v)))
+    printer = next((m for n, m in R.Command.methods.items() if n.lstrip("_") == "print"), None)
+
+    def oracle(interp, e, name, recv, args, kw, st):
+        if name == "write" and isinstance(e.func, ast.Attribute) and isinstance(e.func.value, ast.Name) and e.func.value.id == "target":
+            return [(fd.Const(None), ("write", args[0] if args else None))]
+        if name == "isinstance" and len(args) == 2 and isinstance(args[0], fd.Const) and isinstance(e.args[1], ast.Name) \
+                and ctx.program.cls(e.args[1].id) is not None:
+            return [(fd.Const(False), None)]  # a str / list / int constant is not an instance of a class of the package
+        if name and name.startswith("self."):
+            m = name[5:]
+            g = R.Command.methods.get(m) or next((x for n, x in R.Command.methods.items() if n.lstrip("_") == m.lstrip("_")), None)
+            if m == "has_arguments":
+                return [(fd.Const(True), None)]
+            if g is printer and g is not None:
+                return [(fd.Const(None), ("print", args[0] if args else None))]
+            if g is not None and g not in (R.tosieve,) and m not in ("get_type",):
+                return fd.Inline(g)
+        return None
+    n = 0
+    for what, slot, val, extra, (label, expect) in scenarios:
+        n += 1
+        env = {"self.args_definition": fd.Const([slot]), "self.arguments": fd.Const({"slot": val}),
+               "self.extra_arguments": fd.Const({"slot": extra} if extra is not None else {}), "self.accept_children": fd.Const(False),
+               "self.name": fd.Const("cmd"), "indentlevel": fd.Const(0)}
+        it = fd.Interp(f.node, R.Command.name, oracle, loop_unroll=2, max_depth=2)
+        try:
+            paths = it.run(env)
+        except fd.TooManyPaths:
+            raise AnalysisError("S6", "path explosion in tosieve for %s" % what)
+        key = "%s/%s" % (what, label)
+        problems = []
+        for p in paths:
+            if p.kind == "raise":
+                problems.append("raises %s" % p.value)
+                continue
+            ws = [x[1] for x in p.events if x[0] == "write"]
+            # cut at the end of the slot loop: the command terminator is written after it
+            consts = [w.v if isinstance(w, fd.Const) else None for w in ws]
+            if label == "string list":
+                if not any(w is None for w in consts):
+                    problems.append("writes %r for a list value" % (consts,))
+                continue
+            if consts.count(expect) != 1:
+                problems.append("writes %r: the value %r does not appear exactly once, unchanged" % (consts, expect))
+                continue
+            i = consts.index(expect)
+            nxt = consts[i + 1] if i + 1 < len(consts) else None
+            if label == "text: block" and not (isinstance(nxt, str) and nxt.startswith("\n")):
+                problems.append("writes %r after the text: block instead of a newline" % (nxt,))
+            if extra is not None and (i < 2 or consts[i - 2] != ":tag" or consts[i - 1] != " "):
+                problems.append("the tag and a space do not precede its parameter (%r)" % (consts[:i],))
+        if problems:
+            ctx.violation("S6", f, "slot-shape:%s" % key, "tosieve, %s holding a %s: %s" % (what, label, problems[0]), node=f.node,
+                          witness="a command using this slot form serialises to text that does not re-parse to the same tree")
+        else:
+            ctx.holds("S6", "%s holding a %s (%d paths)" % (what, label, len(paths)))
+    ctx.need("S6", "slot form x value shape scenarios", n, 12)
+    # items of a string list: the recorder stores complete quoted-string tokens (P14); each must be written back unchanged
+    comps = [c for c in walk_no_nested(f.node) if isinstance(c, (ast.ListComp, ast.GeneratorExp)) and len(c.generators) == 1
+             and isinstance(c.generators[0].iter, ast.Name) and isinstance(c.generators[0].target, ast.Name)]
+    items = ['"a"', '""', '"a\\"b"', '"x\\""', '"\\\\"', '"a, b"', '"[x]"', '" a "']
+    if not comps:
+        ctx.notice("S6", "string-list items are not written through a comprehension: item discipline not evaluated")
+    for c in comps:
+        var = c.generators[0].target.id
+        it = fd.Interp(f.node, R.Command.name, oracle)
+        bad = None
+        for item in items:
+            st = fd.State()
+            st.env[var] = fd.Const(item)
+            res = it.eval(c.elt, st)
+            for v, _ in res:
+                if not (isinstance(v, fd.Const) and v.v == item):
+                    bad = bad or (item, v)
+        if bad:
+            ctx.violation("S6", f, "list-item-altered", "the string-list writer turns the stored item %s into %r" % (bad[0], bad[1]), node=c,
+                          witness="a list item holding an escaped quote loses its escaping: the output does not re-parse to the same tree")
+        else:
+            ctx.holds("S6", "string-list items are written unchanged (%d item shapes, including escaped quotes at the end)" % len(items))
 
 
 def enclosing_name(node):
